@@ -20,12 +20,12 @@ CFG = dict(
                    "unknown have and the skipping of haves that are ancestors of earlier commons are covered by "
                    "correspondence only); complete table selection with several wants is false.",
         rule="fixed witnesses (order dependence, diamond chains n<=10, linear/fork/criss-cross, unknown have first, "
-             "deferral over rounds, dangling parent, ref to unknown commit); exhaustive: every DAG on <=4 (quick, 22% sample) / "
+             "deferral over rounds, dangling parent, ref to unknown commit, SAME table sum on several commits: revert chain, commit reached by a short and a long path, identical data on two branches, each at depth 0..3 with one and two wants); exhaustive: every DAG on <=4 (quick, 22% sample) / "
              "<=5 (thorough; 4% sample of the 5-commit level) commits with <=2 ordered parents x want sets of size 1..3 x "
              "have sets of size 0..3 incl. one unknown hash, rotating over timestamp regimes {topological, reversed, all "
-             "equal}, depth 0..3, refs {all heads, last commit only, duplicated ref}, one shallow commit, round shapes "
+             "equal}, depth 0..3, refs {all heads, last commit only, duplicated ref}, table regimes {own table per commit, two alternating table sums, last commit reverts to the first table}, one shallow commit, round shapes "
              "{done, not done, haves split over two rounds, wants split over two rounds}; random DAGs of 2..14 commits "
-             "(<=3 parents, repeated parent, shared tables, missing tables, random/tied times, dangling parent, unknown "
+             "(<=3 parents, repeated parent, shared table sums (1/3 of the cases 3 sums in all, 1/3 reverts to earlier tables), missing tables, random/tied times, dangling parent, unknown "
              "ref, 1..3 rounds). distinct = distinct case text; non-trivial = >= 3 commits (exhaustive) / every random case",
         trusted=["commit ids are small numbers mapped to MeowHash sums by the harness (parents created first); an id not "
                  "listed is an unknown 16-byte hash; a table id is 'stored' iff objects.SaveTable was called for it",
